@@ -29,7 +29,7 @@ from click.testing import CliRunner
 ENGINE = 'E1+E2'
 OPTS = ['atol', 'fraction', 'hints', 'replicate', 'mic', 'charges', 'pp', 'framework_element']
 VALUES = dict(atol=[0.3, 0.01], fraction=[0.5, 0.25], hints=[(0, 2, 1), (1, None, 0), (None, 0, None)], replicate=[(2, 1, 1), (1, 2, 2)], mic=[4.5, 5.0], charges=[1], pp=[1], framework_element=['Xe'])
-STRUCTS = ['orthorhombic: 2 exact + 1 perturbed + 1 noisy copy of C-N-O', 'triclinic (LAMMPS oriented): 2 copies of CH4 (tie-break draws)', 'cubic: 4 single Zr sites']
+STRUCTS = ['orthorhombic: 2 exact + 1 perturbed + 1 noisy copy of C-N-O', 'triclinic (LAMMPS oriented): 2 copies of CH4 (tie-break draws)', 'cubic: 4 single Zr sites', '298 atoms: He grid + 4 Zr sites']
 MODES = ['find+replace', 'find only', 'neither']
 INPUTS = ['cif', 'lmpdat', 'cml+extract-uc']
 OUTPUTS = ['lmpdat', 'cif']
@@ -61,6 +61,11 @@ def structure(si, seed):
         sp = G.generic_rotations(seed, 2)
         P = np.vstack([(sp[0] @ pp.T).T + np.array([0.3, 0.2, 0.4]), pp + np.array([0.55, 0.5, 0.5]) @ cell, np.array([[0.25, 0.75, 0.25]]) @ cell])
         els = el * 2 + ['Kr']; pname = 'CH4'
+    elif si == 3:
+        # more than 256 atoms: 6x7x7 grid of He + 4 Zr sites
+        cell = np.diag([18.0, 21.0, 21.0]); g = lambda n: np.arange(n) * 3.0 + 1.5
+        he = np.array(np.meshgrid(g(6), g(7), g(7))).T.reshape(-1, 3)
+        P = np.vstack([he, np.array([(3.0, 3.0, 3.0), (9.0, 12.0, 0.1), (17.9, 3.0, 12.0), (6.0, 18.0, 18.0)])]); els = ['He'] * len(he) + ['Zr'] * 4; pname = 'Zr'
     else:
         cell = np.diag([9.0, 9.0, 9.0])
         P = np.array([(0.5, 0.5, 0.5), (5.0, 0.5, 8.8), (0.5, 5.0, 4.0), (5.0, 5.0, 0.2), (2.5, 2.5, 2.5), (7.0, 7.0, 7.0)]); els = ['Zr'] * 4 + ['O', 'I']; pname = 'Zr'
@@ -90,7 +95,7 @@ def plan(tier, seed):
     scs = []
     q = tier == 'quick'
     for oi, oset in enumerate(option_sets(tier)):
-        for si in range(len(STRUCTS)):
+        for si in range(3):
             for ii in range(len(INPUTS)):
                 for oo in range(len(OUTPUTS)):
                     for mi in range(len(MODES)):
@@ -98,6 +103,11 @@ def plan(tier, seed):
                             continue            # quick tier: pairs of options on every second combination of the other axes
                         for vi in ((0,) if q else (0, 1)):
                             scs.append(dict(opts=list(oset), vi=vi, s=si, inp=ii, out=oo, mode=mi))
+    # a structure of 298 atoms (beyond 256) with the options that depend on the atom count, and input names with two dots
+    for opts in ([], ['charges'], ['charges', 'fraction'], ['charges', 'pp']):
+        for ii in range(len(INPUTS)):
+            for mi in (0, 2):
+                scs.append(dict(opts=opts, vi=0, s=3, inp=ii, out=(ii + mi) % 2, mode=mi))
     scs += [dict(example=i) for i in (range(2) if q else range(len(EXAMPLES)))]
     return dict(scenarios=scs, exhaustive=True, chunk=6,
                 menus=dict(options=OPTS, values={k: [str(x) for x in v] for k, v in VALUES.items()}, option_sets='every subset of <= %d of the 7 working options, --framework-element alone, all 7, all 8' % (2 if q else 3),
@@ -216,11 +226,11 @@ def run_generated(sc, ctx, out, els, P, cell, pname, d):
     base = Atoms(elements=els, positions=P, cell=cell.copy(), charges=[0.05 * (i + 1) for i in range(n)], groups=[i % 3 for i in range(n)])
     inp = INPUTS[sc['inp']]; argv = []; kw = {}
     if inp == 'cif':
-        ipath = os.path.join(d, 'in.cif'); base.save(ipath)
+        ipath = os.path.join(d, 'in.v1.2.cif' if sc['s'] % 2 else 'in.cif'); base.save(ipath)
     elif inp == 'lmpdat':
-        ipath = os.path.join(d, 'in.lmpdat'); base.save(ipath)
+        ipath = os.path.join(d, 'in.opt.lmpdat' if sc['s'] % 2 else 'in.lmpdat'); base.save(ipath)
     else:
-        ipath = os.path.join(d, 'in.cml')
+        ipath = os.path.join(d, 'in.frag.cml' if sc['s'] % 2 else 'in.cml')
         open(ipath, 'w').write(write_cml(['a%d' % (i + 1) for i in range(n)], els, [tuple(float(x) for x in p) for p in P], [(0, 1)]))
         uc = os.path.join(d, 'uc.lmpdat'); Atoms(elements=['He'], positions=[(0, 0, 0)], cell=cell.copy()).save(uc)
         argv += ['--extract-uc', uc]; kw['extract_uc'] = uc
@@ -236,7 +246,8 @@ def run_generated(sc, ctx, out, els, P, cell, pname, d):
     if mode == 'find+replace':
         argv += ['--replace', rpath]; kw['repl'] = rpath
     vi = sc['vi']; opts = sc['opts']
-    val = lambda o: VALUES[o][vi % len(VALUES[o])]
+    # --mic: 4.5 (2*mic is exactly the cell length) on its own, 5.0 (which needs copies, so that the order of --replicate and --mic matters) next to --replicate
+    val = lambda o: VALUES[o][(vi + (1 if o == 'mic' and 'replicate' in opts else 0)) % len(VALUES[o])]
     expect_kw = dict(atol=5e-2)
     if 'atol' in opts:
         argv += ['--atol', str(val('atol'))]; kw['atol'] = val('atol'); expect_kw['atol'] = val('atol')
